@@ -4,25 +4,26 @@ from vunit import Item, Unit
 import fmtcommon as F
 import optcommon as O
 
+RT = F.RT
+
 SRC = 'core/src/language/python.rs'
 
 PRELUDE = O.PRELUDE + r'''
+/// the (module, name) pairs recorded for the import block (`imports: HashMap<module, HashSet<name>>`)
+pub uninterp spec fn imported_of(m: HashMap<String, HashSet<String>>) -> Set<(Seq<char>, Seq<char>)>;
+pub open spec fn imp(p: Python, m: Seq<char>, n: Seq<char>) -> bool { imported_of(p.imports).contains((m, n)) }
 impl Python {
     pub open spec fn cfg(&self) -> TCfg { TCfg { lang: Lang::Python, map: self.type_mappings@, prefix: Seq::empty(), no_pointer_slice: false } }
-''' + O.FORMAT_TYPE_STUB % {'fmt': 'fmt_python'} + r'''
+''' + (O.FORMAT_TYPE_STUB % {'fmt': 'fmt_python'}).replace('final(self).cfg() == old(self).cfg(),', 'final(self).cfg() == old(self).cfg(), /*proved in fmt_python (C12 frame)*/ imported_of(old(self).imports).subset_of(imported_of(final(self).imports)), final(self).type_variables == old(self).type_variables,') + r'''
     #[verifier::external_body]
     fn write_comments(&self, w: &mut WriteSink, is_docstring: bool, comments: &[String], indent_level: usize) -> (r: std::io::Result<()>)
         ensures r is Ok ==> final(w)@ == old(w)@ + comments_text(indent_level as int, comments@),
     { unimplemented!() }
-    /// stub: import bookkeeping (C12's domain) leaves type_mappings alone
-    #[verifier::external_body]
-    fn add_common_imports(&mut self, is_optional: bool, requires_custom_translation: bool, is_aliased: bool)
-        ensures final(self).cfg() == old(self).cfg(),
-    { unimplemented!() }
-    /// stub: import bookkeeping (C12's domain) leaves type_mappings alone
+    /// stub for Python::add_import (`self.imports.entry(module).or_default().insert(identifier)`, entry API): records the pair, nothing else changes
     #[verifier::external_body]
     fn add_import(&mut self, module: String, name: String)
-        ensures final(self).cfg() == old(self).cfg(),
+        ensures final(self).cfg() == old(self).cfg(), imported_of(final(self).imports) == imported_of(old(self).imports).insert((module@, name@)),
+            final(self).types_for_custom_json_translation == old(self).types_for_custom_json_translation, final(self).type_variables == old(self).type_variables,
     { unimplemented!() }
 }
 /// python_property_aware_rename: snake case + keyword escape - a pure function of the name
@@ -33,72 +34,116 @@ fn python_property_aware_rename(name: &str) -> (r: String) ensures r@ == py_name
 pub uninterp spec fn py_custom(t: Seq<char>) -> Option<CustomJsonTranslationFunctions>;
 #[verifier::external_body]
 fn json_translation_for_type(python_type: &str) -> (r: Option<CustomJsonTranslationFunctions>) ensures r == py_custom(python_type@) { unimplemented!() }
+/// T7: the struct-level decorator table (not used by the functions under contract)
+#[verifier::external_body] pub struct DecoratorMap { _p: u8 }
+/// outlined (T3): `fields.iter().find(|f| python_property_aware_rename(&f.id.original) != f.id.renamed)`
+#[verifier::external_body]
+fn find_visibly_renamed(fields: &[RustField]) -> (r: Option<&RustField>) { unimplemented!() }
 /// `[String]::join(sep)`
 #[verifier::external_body]
 fn join_strs(v: &Vec<String>, sep: &str) -> (r: String) ensures r@ == join(strs(v@), sep@) { unimplemented!() }
 '''
 
-FIELD = [
-    rep(A.text('&mut dyn Write'), '&mut WriteSink', tag='T7'),
-    ins(A.ret(), '(r: ', where='before'), ins(A.ret(), ')', where='after'),
+COMMON = [
     ins(A.sig(), '''
-        requires obeys_key_model::<String>(), dom(field.ty),
-        ensures /*C04 (members whose type text needs a custom (de)serialiser get an Annotated[..] wrapper: not decided here)*/
+        ensures final(self).cfg() == old(self).cfg(), final(self).type_variables == old(self).type_variables,
+            /*C12: recorded imports are never lost*/ imported_of(old(self).imports).subset_of(imported_of(final(self).imports)),
+            /*C12: Optional[..] / default=None members*/ is_optional ==> imp(*final(self), "typing"@, "Optional"@),
+            /*C12: Annotated[.., BeforeValidator(..), PlainSerializer(..)] members*/ requires_custom_translation ==> imp(*final(self), "typing"@, "Annotated"@)
+                && imp(*final(self), "pydantic"@, "BeforeValidator"@) && imp(*final(self), "pydantic"@, "PlainSerializer"@),
+            /*C12: `= Field(..)` members*/ (is_aliased || is_optional) ==> imp(*final(self), "pydantic"@, "Field"@),
+''', cid='add_common_imports.contract'),
+]
+
+# the contract of Python::write_field: proved here, and used as the stub's contract in unit pyclass (same text)
+FIELD_CONTRACT = '''        requires obeys_key_model::<String>(), dom(field.ty),
+        ensures /*C04 (a member whose type text has a custom (de)serialiser is wrapped in Annotated[..] as a whole: the optional marker stays around the type text inside)*/
             r is Ok ==> exists|pre: Seq<char>, t: Seq<char>, post: Seq<char>| #[trigger] wit3(pre, t, post)
                 && tx_ok(old(self).cfg(), generic_types@, field.ty, t)
                 && (py_custom(t) is None ==> final(w)@ == old(w)@ + pre + member(Lang::Python, py_name(field.id.original@), t, *field)
+                        + py_suffix(py_name(field.id.original@) != field.id.renamed@, field.id.renamed@, optional(*field)) + post)
+                && (py_custom(t) is Some ==> final(w)@ == old(w)@ + pre + py_name(field.id.original@) + ": "@
+                        + py_annotated(py_inner(t, *field), py_custom(t)->Some_0.deserialization_name@, py_custom(t)->Some_0.serialization_name@)
                         + py_suffix(py_name(field.id.original@) != field.id.renamed@, field.id.renamed@, optional(*field)) + post),
-            final(self).cfg() == old(self).cfg(),
-''', cid='write_field.contract'),
+            final(self).cfg() == old(self).cfg(), final(self).type_variables == old(self).type_variables,
+            /*C12: recorded imports are never lost*/ imported_of(old(self).imports).subset_of(imported_of(final(self).imports)),
+            /*C12: a member written with `= Field(..)` (aliased, Option or serde(default)) has pydantic.Field imported*/ (r is Ok && (py_name(field.id.original@) != field.id.renamed@ || optional(*field))) ==> imp(*final(self), "pydantic"@, "Field"@),
+            /*C12: a member whose type is wrapped in `Optional[..]` by this writer (serde(default) on a non-Option) has typing.Optional imported*/ (r is Ok && field.has_default && !is_opt(field.ty)) ==> imp(*final(self), "typing"@, "Optional"@),
+            /*C12: a member written as Annotated[.., BeforeValidator(..), PlainSerializer(..)] has these three names imported*/ r is Ok ==> exists|t: Seq<char>| #[trigger] wit(t) && tx_ok(old(self).cfg(), generic_types@, field.ty, t)
+                && (py_custom(t) is Some ==> imp(*final(self), "typing"@, "Annotated"@) && imp(*final(self), "pydantic"@, "BeforeValidator"@)
+                        && imp(*final(self), "pydantic"@, "PlainSerializer"@)),
+'''
+
+FIELD = [
+    rep(A.text('&mut dyn Write'), '&mut WriteSink', tag='T7'),
+    ins(A.ret(), '(r: ', where='before'), ins(A.ret(), ')', where='after'),
+    ins(A.sig(), '\n' + FIELD_CONTRACT, cid='write_field.contract'),
     ins(A.body_start(), '''
         let ghost w0 = w@;'''),
     ins(A.text('let mut field_type = python_type.clone();'), '''let ghost t0 = python_type@;
         ''', where='before'),
     rep(A.text('decorators.join('), 'join_strs(&decorators, ', tag='T3', note='slice join'),
+    ins(A.text('let mut decorators: Vec<String> = Vec::new();'), '''let ghost ft = field_type@;
+        proof {
+            /*C04*/ assert(py_custom(t0) is None ==> ft == py_inner(t0, *field));
+            /*C04*/ assert(py_custom(t0) is Some ==> ft == py_annotated(py_inner(t0, *field), py_custom(t0)->Some_0.deserialization_name@, py_custom(t0)->Some_0.serialization_name@));
+        }
+        ''', where='before'),
     ins(A.text('self.write_comments(w, true, &field.comments, 1)?;'), '''let ghost w1 = w@;
         ''', where='before'),
     ins(A.text('Ok(())'), '''proof {
-            if py_custom(t0) is None {
-                let aliased = py_name(field.id.original@) != field.id.renamed@;
-                let d = py_decorators(aliased, field.id.renamed@, optional(*field));
-                assert(strs(decorators@) =~= d);
-                let pre = wfmt_write_field_4_p0();
-                let post = wfmt_write_field_4_p3() + "\\n"@ + comments_text(1, field.comments@);
-                let m = member(Lang::Python, py_name(field.id.original@), t0, *field);
-                let sfx = py_suffix(aliased, field.id.renamed@, optional(*field));
-                assert(python_return_value@ == sfx);
-                assert(w1 =~= w0 + pre + m + sfx + wfmt_write_field_4_p3() + "\\n"@);
-                assert(w@ =~= w0 + pre + m + sfx + post);
-                assert(wit3(pre, t0, post));
-            } else {
-                assert(wit3(Seq::<char>::empty(), t0, Seq::<char>::empty()));
-            }
+            let aliased = py_name(field.id.original@) != field.id.renamed@;
+            let d = py_decorators(aliased, field.id.renamed@, optional(*field));
+            /*C04*/ assert(strs(decorators@) =~= d);
+            let pre = wfmt_write_field_4_p0();
+            let post = wfmt_write_field_4_p3() + "\\n"@ + comments_text(1, field.comments@);
+            let sfx = py_suffix(aliased, field.id.renamed@, optional(*field));
+            /*C04*/ assert(python_return_value@ == sfx);
+            let m = py_name(field.id.original@) + ": "@ + ft;
+            /*C04*/ assert(w1 =~= w0 + pre + m + sfx + wfmt_write_field_4_p3() + "\\n"@);
+            /*C04*/ assert(w@ =~= w0 + pre + m + sfx + post);
+            /*C04*/ assert(py_custom(t0) is None ==> m == member(Lang::Python, py_name(field.id.original@), t0, *field));
+            /*C04*/ assert(wit3(pre, t0, post));
         }
         ''', where='before'),
 ]
 
 UNIT = Unit(
-    name='opt_python', props=['C04', 'C07'], pre_verus=O.PRE_VERUS, spec_files=['std_slices.rs', 'seqjoin.rs', 'typexpr.rs', 'txt.rs', 'optmark.rs'], prelude=PRELUDE,
+    name='opt_python', props=['C04', 'C12', 'C07'], pre_verus=O.PRE_VERUS, spec_files=['std_slices.rs', 'seqjoin.rs', 'typexpr.rs', 'txt.rs', 'optmark.rs'], prelude=PRELUDE,
     items=O.base_items('Python', SRC) + [
         Item('struct_CustomJsonTranslationFunctions', SRC, ['struct CustomJsonTranslationFunctions']),
+        Item('add_common_imports', SRC, ['impl Python {', 'fn add_common_imports'], COMMON, wrap=('impl Python {\n', '\n}\n'), auto=('strlit',)),
         Item('write_field', SRC, ['impl Python {', 'fn write_field'], FIELD, wrap=('impl Python {\n', '\n}\n'),
              auto=('fmt', 'strlit', 'then_some', 'map_err_q')),
     ],
-    functions=['Python::write_field', 'RustType::is_optional', 'RustType::is_double_optional'],
-    trusted=O.TRUSTED + ['stubs: python_property_aware_rename and json_translation_for_type are pure functions of their argument; add_common_imports '
-                         'leaves type_mappings unchanged; outlined: [String]::join'],
-    undecided=O.UNDECIDED + ['Python members whose type text has a custom (de)serialiser (Annotated[..] wrapper); Python ignores per-field type overrides'],
+    functions=['Python::write_field', 'Python::add_common_imports', 'RustType::is_optional', 'RustType::is_double_optional'],
+    trusted=O.TRUSTED + ['stubs: python_property_aware_rename and json_translation_for_type are pure functions of their argument; Python::add_import '
+                         '(HashMap entry API) records the (module, name) pair and changes nothing else; outlined: [String]::join',
+                         'format_type never loses a recorded import (frame clause PROVED in unit fmt_python, assumed on the stub here)'],
+    undecided=O.UNDECIDED + ['Python ignores per-field type overrides'],
 )
 UNIT.crate_attrs = '#![feature(allocator_api)]'
 UNIT.forbid = F.FORBID
 UNIT.allowed_calls = O.ALLOWED | {'insert'}
 
 
-def native(workdir):
+def _search():
+    # the unit serves two properties: a failing input is looked for with the stand-in of the property being checked
+    import os
+    if os.environ.get('VERIF_PID') == 'C12':
+        import helpersearch
+        return helpersearch
     import optsearch
-    return optsearch.native(workdir)
+    return optsearch
+
+
+def native(workdir):
+    return _search().native(workdir)
 
 
 def replay_args(inp):
+    if 'trigger' in inp:
+        import helpersearch
+        return helpersearch.replay_args(inp)
     import optsearch
     return optsearch.replay_args(inp)
